@@ -503,7 +503,8 @@ class Canon:
         caller_names = {n.id for n in _own_nodes(caller) if isinstance(n, ast.Name)} | {a.arg for a in caller.args.args}
 
         def expr_helper(fn):
-            body = [s for s in fn.body if not _is_docstring(s)]
+            # (an `assert` that passes is a no-op; helpers of the form `assert X; return E` are expression helpers)
+            body = [s for s in fn.body if not _is_docstring(s) and not isinstance(s, ast.Assert)]
             return body[0].value if len(body) == 1 and isinstance(body[0], ast.Return) and body[0].value is not None else None
 
         class ExprInliner(ast.NodeTransformer):
